@@ -129,6 +129,7 @@ struct Replay {
     rng: Rng,
     every_second_days: Vec<Value>,
     unreserved: Vec<u8>, // Percent!Unreserved, printed by TLC
+    mt_pool: Vec<(i64, String)>, // (timestamp, expected date) pairs of different days, formatted again from 8 threads at once
 }
 
 impl Replay {
@@ -378,13 +379,18 @@ impl Replay {
                 }
             }
             p.nontrivial += 1; // one distinct calendar day
+            if (i == 0 || i + 1 == days.len()) && self.mt_pool.len() < 40_000 {
+                // month boundaries: the last second of one day and the first of the next, for the concurrent pass
+                let s = if i == 0 { 0 } else { 86399 };
+                self.mt_pool.push((day * 86400 + s as i64, format!("{}{}{} GMT", dp, mp, time_of[s])));
+            }
             self.time_of = time_of;
         }
     }
 }
 
 fn replay() {
-    let mut r = Replay { parts: BTreeMap::new(), time_of: vec![], rng: Rng::from_env(), every_second_days: vec![], unreserved: vec![] };
+    let mut r = Replay { parts: BTreeMap::new(), time_of: vec![], rng: Rng::from_env(), every_second_days: vec![], unreserved: vec![], mt_pool: vec![] };
     let mut lines = 0u64;
     for line in stdin_lines() {
         let v: Value = match serde_json::from_str(&line) { Ok(v) => v, Err(_) => continue };
@@ -404,6 +410,41 @@ fn replay() {
             "month" => r.month(&v),
             other => { eprintln!("unknown line kind {:?}", other); std::process::exit(2) }
         }
+    }
+    // the same conversions from 8 threads at once, every thread walking the days in its own order: the server stamps
+    // responses from all its workers, so a conversion must not depend on what another thread converts at that moment
+    // (added after the seeded change `C18-r5-datetime-...-one-entry-cache` - a racy last-day cache - was missed)
+    if !r.mt_pool.is_empty() {
+        let pool = std::sync::Arc::new(std::mem::take(&mut r.mt_pool));
+        let bad: std::sync::Arc<std::sync::Mutex<Vec<Value>>> = Default::default();
+        let evals = std::sync::Arc::new(std::sync::atomic::AtomicU64::new(0));
+        let passes = (200_000 / pool.len()).clamp(2, 60);
+        let hs: Vec<_> = (0..8usize).map(|t| {
+            let (pool, bad, evals) = (pool.clone(), bad.clone(), evals.clone());
+            std::thread::spawn(move || {
+                let n = pool.len();
+                let stride = [1usize, 3, 7, 11, 13, 17, 19, 23][t] % n.max(2);
+                let stride = if stride == 0 || n % stride == 0 { 1 } else { stride };
+                for pass in 0..passes {
+                    let mut i = (t * n / 8 + pass) % n;
+                    for _ in 0..n {
+                        let (ts, exp) = &pool[i];
+                        let got = fmt_date(*ts);
+                        if &got != exp {
+                            let mut b = bad.lock().unwrap();
+                            if b.len() < 5 { b.push(json!({"what": "HTTP date formatted while 7 other threads format other days", "timestamp": ts, "expected": exp, "got": got, "thread": t})); }
+                        }
+                        i = (i + stride) % n;
+                    }
+                    evals.fetch_add(n as u64, std::sync::atomic::Ordering::Relaxed);
+                }
+            })
+        }).collect();
+        for h in hs { let _ = h.join(); }
+        let p = r.part("date_concurrent");
+        p.evals += evals.load(std::sync::atomic::Ordering::Relaxed);
+        p.nontrivial += pool.len() as u64;
+        for b in bad.lock().unwrap().drain(..) { p.bad(b); }
     }
     let parts: serde_json::Map<String, Value> = r.parts.iter().map(|(k, p)| (k.to_string(), json!({
         "evaluations": p.evals, "nontrivial": p.nontrivial, "mismatches": p.mism, "first": p.first,
